@@ -467,7 +467,32 @@ def family_val():
     add("list_elements", ["l = [1, 2]", "x = l[0]", "l[1] = 5", "y = l[1]", "return y"], exact=False)
     add("dict_elements", ["d = {'k': 1}", "d['j'] = 2", "x = d['k']", "return x"], exact=False)
     add("copy_chain", ["x = 4", "y = x", "z = y", "x = 6", "w = z", "return w"])
+    # round 2
+    add("fold_result_zero", ["u = 1", "if c:", "    u = 2", "v = u - 1", "return v"], exact=False)
+    add("unknown_operand_in_one_arm", ["x = 1", "if c:", "    x = a", "z = x + 2", "return z"], exact=False)
+    add("sub_of_joined_constants", ["u = 5", "if c:", "    u = 7", "v = u - 2", "return v"])
+    # v and w are correlated through u: a non-relational analysis holds all four sums (not what C09 asks about): covering only
+    add("mul_of_joined_constants", ["u = 2", "if c:", "    u = 3", "v = u * 4", "w = 10 - u", "return v + w"], exact=False)
+    add("default_parameter_used", ["t = dflt(1)", "return t"], helpers="def dflt(p, q=7):\n    return p + q\n")
+    add("alias_then_overwrite_field", ["o = K(1)", "p = o", "o.v = 2", "r = p.v", "return r"], helpers=KV)
+    add("field_in_one_arm", ["o = K(1)", "if c:", "    o.v = 2", "r = o.v", "return r"], helpers=KV)
+    add("three_sites_same_helper", ["k1 = h(100)", "k0 = h2(300)", "k2 = h(200)", "return k2"], helpers=HV + "\ndef h2(p):\n    return p + 2\n")
     return P
+
+
+def val_witnesses_round2():
+    """clean-tree violations reported by a seeding agent and confirmed by the checks (C08 unless noted)"""
+    W = []
+
+    def w(name, lines, known, helpers="", exact=True):
+        p = prog(name, "witness", lines, helpers=helpers, known=known)
+        p["src"] += TAIL
+        p["exact"] = exact
+        W.append(p)
+    w("w_string_times_int", ["s = 'ab' * 3", "return s"], "string-int-folding")
+    w("w_helper_field_write_is_weak", ["o = K(1)", "setf(o, 33)", "r = o.v", "return r"], "C09: helper-field-write-weak", helpers=KV + "\ndef setf(q, x):\n    q.v = x\n")
+    w("w_default_leaks_into_explicit_argument", ["t = dflt(1, 2)", "return t"], "C09: default-leaks", helpers="def dflt(p, q=7):\n    return p + q\n")
+    return W
 
 
 def val_witnesses():
